@@ -356,13 +356,14 @@ func reasmPlan(quick bool) []reasmCfg {
 		}
 	}
 	return []reasmCfg{
-		{label: "reasm depth<=3 full alphabet Max in {1,2}", cfgs: "{<<1,3,1>>,<<2,3,1>>}", idRels: idsFull, kindRels: kindsBoth, ctls: "BOOLEAN", pays: paysFull, fins: finsAll, allEvery: 128, pairEvery: 8, nRandom: 3},
-		{label: "reasm depth<=2 wide id alphabet Max in {1,2,3,64}", cfgs: "{<<1,2,1>>,<<2,2,1>>,<<3,2,1>>,<<64,2,1>>}", idRels: idsWide, kindRels: kindsBoth, ctls: "BOOLEAN", pays: "{<<0,0>>,<<0,1>>,<<0,2>>,<<1,-1>>,<<1,0>>,<<1,1>>}", fins: finsAll, allEvery: 2, pairEvery: 2, nRandom: 4},
+		{label: "reasm depth<=3 full alphabet Max=2", cfgs: "{<<2,3,1>>}", idRels: idsFull, kindRels: kindsBoth, ctls: "BOOLEAN", pays: paysFull, fins: finsAll, allEvery: 512, pairEvery: 64, nRandom: 2},
+		{label: "reasm depth<=3 Max=1", cfgs: "{<<1,3,1>>}", idRels: idsNoLs, kindRels: kindsBoth, ctls: "BOOLEAN", pays: paysEdge, fins: finsAll, allEvery: 256, pairEvery: 32, nRandom: 2},
+		{label: "reasm depth<=2 wide id alphabet Max in {2,64}", cfgs: "{<<2,2,1>>,<<64,2,1>>}", idRels: idsWide, kindRels: kindsBoth, ctls: "BOOLEAN", pays: "{<<0,0>>,<<0,1>>,<<0,2>>,<<1,-1>>,<<1,0>>,<<1,1>>}", fins: finsAll, allEvery: 8, pairEvery: 4, nRandom: 3},
 		{label: "reasm tails after <=2 frames, reduced alphabet, Max in {1,2,64}", cfgs: "{<<1,2,2>>,<<2,2,2>>,<<64,2,2>>}", idRels: idsUp, kindRels: `{"same"}`, ctls: "{FALSE}", pays: "{<<0,1>>}", fins: finsAll, allEvery: 1, pairEvery: 1, nRandom: 4},
-		{label: "reasm depth 3 Max=64", cfgs: "{<<64,3,1>>}", idRels: idsNoLs, kindRels: kindsBoth, ctls: "BOOLEAN", pays: paysFull, fins: finsAll, allEvery: 16, pairEvery: 16, nRandom: 3},
-		{label: "reasm depth 4 reduced alphabet Max=2", cfgs: "{<<2,4,0>>}", idRels: idsUp, kindRels: kindsBoth, ctls: "BOOLEAN", pays: "{<<0,1>>,<<1,0>>}", fins: `{"ioerr"}`, allEvery: 1024, pairEvery: 32, nRandom: 2},
-		{label: "reasm depth<=3 Max in {4067,4068,4069}", cfgs: "{<<4067,3,1>>,<<4068,3,0>>,<<4069,3,0>>}", idRels: idsNoLs, kindRels: kindsBoth, ctls: "{FALSE}", pays: paysEdge, fins: finsAll, allEvery: 1, pairEvery: 16, nRandom: 3},
-		{label: "reasm depth<=2 Max in {4067,4068,4069} with control", cfgs: "{<<4067,2,1>>,<<4068,2,1>>,<<4069,2,1>>}", idRels: idsFull, kindRels: kindsBoth, ctls: "BOOLEAN", pays: paysFull, fins: finsAll, allEvery: 1, pairEvery: 8, nRandom: 4},
+		{label: "reasm depth 3 Max=64", cfgs: "{<<64,3,0>>}", idRels: idsNoLs, kindRels: kindsBoth, ctls: "BOOLEAN", pays: paysEdge, fins: finsAll, allEvery: 16, pairEvery: 32, nRandom: 2},
+		{label: "reasm depth 4 reduced alphabet Max=2", cfgs: "{<<2,4,0>>}", idRels: idsUp, kindRels: kindsBoth, ctls: "BOOLEAN", pays: "{<<0,1>>}", fins: `{"ioerr"}`, allEvery: 2048, pairEvery: 64, nRandom: 2},
+		{label: "reasm depth<=3 Max in {4067,4068,4069}", cfgs: "{<<4067,3,1>>,<<4068,3,0>>,<<4069,3,0>>}", idRels: idsNoLs, kindRels: kindsBoth, ctls: "{FALSE}", pays: paysEdge, fins: finsAll, allEvery: 1, pairEvery: 32, nRandom: 2},
+		{label: "reasm depth<=2 Max in {4067,4068,4069} with control", cfgs: "{<<4067,2,1>>,<<4068,2,1>>,<<4069,2,1>>}", idRels: idsFull, kindRels: kindsBoth, ctls: "BOOLEAN", pays: paysFull, fins: finsAll, allEvery: 1, pairEvery: 16, nRandom: 3},
 		{label: "reasm depth<=2 default Max (4 MiB)", cfgs: "{<<4194304,2,1>>}", idRels: idsUp, kindRels: `{"same"}`, ctls: "{FALSE}", pays: paysEdge, fins: `{"eof","ioerr"}`, allEvery: 1, light: true, workers: 8},
 	}
 }
